@@ -39,6 +39,7 @@ def run(ctx, rep):
     else:
         rep.floor("C09.2", 0, 1, "success path of ProguardCache::write")
     CF.check_parse(fx, rep, "C09.8")
+    CF.check_self_test(fx, rep, "C09.9")
     LR.check_section_slices(fx, rep, "C09.8")
     if ctx.tier == "thorough":
         fu = ctx.facts("uuid")
